@@ -14,6 +14,7 @@ from a copy of the raw image.
 import GoNfsd.Lemmas.Codec
 import GoNfsd.Model.Txn
 import GoNfsd.Lemmas.AllocTxn
+import GoNfsd.Lemmas.Cache
 
 namespace GoNfsd.Props.C10
 open GoNfsd.Model.Codec GoNfsd.Gen.Consts
@@ -266,5 +267,21 @@ example :
     by_cases h0 : t = 0 <;> by_cases h1 : t = 1 <;> simp [h0, h1]
 
 end alloctxn
+
+/-! ### the slot cache underneath (model M8c of `cache.Cache`) -/
+
+/-- A SLOT OF THE CACHE NEVER COMES TO STAND FOR ANOTHER ID: whatever the capacity, the lookups and
+    the evictions they cause, two lookups that return the same slot asked for the same id.  (The
+    callers keep the slot pointer across blocking disk reads and fill it afterwards: a slot that
+    were handed on to another id would receive the wrong inode.) -/
+theorem cache_slot_stands_for_one_id (sz : Nat) (ids : List Nat) (i i' t : Nat)
+    (h1 : (i, t) ∈ GoNfsd.Model.Cache.pairs ids (GoNfsd.Model.Cache.run (GoNfsd.Model.Cache.mk sz) ids).2)
+    (h2 : (i', t) ∈ GoNfsd.Model.Cache.pairs ids (GoNfsd.Model.Cache.run (GoNfsd.Model.Cache.mk sz) ids).2) :
+    i = i' :=
+  GoNfsd.Model.Cache.slot_stands_for_one_id sz ids i i' t h1 h2
+
+/-- non-vacuity: capacity 2, the least recently used id is evicted and gets a NEW slot later -/
+example : (GoNfsd.Model.Cache.run (GoNfsd.Model.Cache.mk 2) [7, 8, 7, 9, 8, 7]).2
+    = [some 0, some 1, some 0, some 2, some 3, some 4] := by decide
 
 end GoNfsd.Props.C10
